@@ -5,7 +5,7 @@ From Coq Require Import NArith ZArith List Extraction ExtrOcamlBasic.
 From MZ.lib Require Import Arr Bits.
 From MZ.spec Require Import Adler Crc DeflateSpec.
 From MZ.gen Require Import GenZlib GenTables.
-From MZ.model Require Import Oracle.
+From MZ.model Require Import Oracle InflateCore InflateDrive.
 
 Extraction Language OCaml.
 Extraction "mzmodel.ml"
@@ -16,4 +16,8 @@ Extraction "mzmodel.ml"
   GenZlib.header_from_flags GenZlib.validate_zlib_header GenZlib.num_extra_bits_for_distance_code
   GenZlib.create_comp_flags_from_zip_params GenZlib.limit_level_by_window_bits
   GenZlib.window_bits_from_flags GenZlib.probes_from_flags GenZlib.update_hash
-  GenZlib.mz_deflateBound.
+  GenZlib.mz_deflateBound
+  Arr.amake Arr.aget Arr.aset Arr.alen Arr.aset_list Arr.aget_list Arr.aof_list
+  InflateCore.decompress InflateCore.dec_default InflateCore.dec_init InflateCore.dec_adler32
+  InflateCore.status_code InflateCore.state_id
+  InflateDrive.drive.
